@@ -67,10 +67,16 @@ def replay_render(sql, dialect='mysql', fallback=True, expect_mutation=False):
 
 
 # ------------------------------------------------------------------ the handler
+HANDLER = {}
+
+
 def fallback_obligations(rep):
+    HANDLER.clear()
     from sqlalchemy.exc import SQLAlchemyError
     fn = f'{RENDER}:SqlalchemyRender.get_exec_params'
-    for exc_name, exc in (('SQLAlchemyError', SQLAlchemyError), ('NotImplementedError', NotImplementedError), ('none', None)):
+    class InternalError(Exception):
+        """stands for any exception that is neither SQLAlchemyError nor NotImplementedError (KeyError, TypeError, AttributeError, a private error class ...)"""
+    for exc_name, exc in (('SQLAlchemyError', SQLAlchemyError), ('NotImplementedError', NotImplementedError), ('internal', InternalError), ('none', None)):
         for site in ('get_query', 'render'):
             if exc is None and site == 'render':
                 continue
@@ -108,6 +114,8 @@ def fallback_obligations(rep):
                         ex.stubs[(RENDER, 'render_dml_query')] = render_fn
                         ex.stubs[(RENDER, 'render_ddl_query')] = render_fn
                         ex.stubs[('mindsdb_sql.parser.ast.base', 'ASTNode.__str__')] = lambda ex_, a, k, node=None: own
+                        # assumed contract of re.sub / str.replace on the fallback text: a string
+                        ex.stubs[('re', 'sub')] = lambda ex_, a, k, node=None: pysym.mk_str(ex_.fresh_name('re.sub'))
                         ex.method_stubs['__str__'] = lambda ex_, obj, a, k: own
                         ex.path_state.update(sql=sql, own=own, q=q)
                         return [selfo, q], {'with_failback': fb, 'with_params': False}
@@ -119,11 +127,15 @@ def fallback_obligations(rep):
                                 return f'without an error the rendered SQL is not returned: {o.kind} {o.value!r}'
                             return None
                         if not fb:
-                            if o.kind == 'raise' and o.value is exc:
+                            if o.kind == 'raise' and o.value is exc and exc.__name__ != 'InternalError':
                                 return None
+                            if o.kind == 'raise' and exc.__name__ == 'InternalError' and issubclass(o.value, (NotImplementedError, SQLAlchemyError)):
+                                return None
+                            if exc.__name__ == 'InternalError':
+                                return f'fallback off: an internal error of the translation leaves get_exec_params as {getattr(o.value, "__name__", o.value)!r} (allowed: SQLAlchemyError, NotImplementedError)'
                             return f'fallback off: {o.kind} {o.value!r} instead of re-raising {exc.__name__}'
                         if o.kind != 'return':
-                            return f'fallback on: raises {o.value.__name__}'
+                            return f'fallback on: raises {o.value.__name__}' + (' (an internal error of the translation is not caught)' if exc.__name__ == 'InternalError' else '')
                         s, params = o.value
                         if params is not None:
                             return 'fallback returns parameters'
@@ -134,7 +146,10 @@ def fallback_obligations(rep):
                             return f'fallback on (postgresql): returns {s!r}'
                         return None
                     v = pysym.verify(RENDER, 'SqlalchemyRender.get_exec_params', make_args, post)
-                    _emit(rep, oid, v, fn, 'fallback on: SQLAlchemyError/NotImplementedError from get_query/render => returns (str(ast_query), None); off => re-raised; no error => rendered SQL')
+                    _emit(rep, oid, v, fn, 'fallback on: any exception from get_query/render => returns (str(ast_query), None); off => SQLAlchemyError/NotImplementedError re-raised, anything else leaves as one of the two; no error => rendered SQL',
+                          replay=(lambda: replay_render('select cast(a as foo) from t', fallback=fb)) if exc_name == 'internal' else None)
+                    if exc_name == 'internal':
+                        HANDLER[(site, fb, dname)] = v.status
 
 
 # ------------------------------------------------------------------ raise statements and sites of the renderer's own code
@@ -172,6 +187,11 @@ def raise_census(rep):
                         if isinstance(sub, ast.Attribute) and sub.attr == '__name__' and isinstance(sub.value, ast.Name) and sub.value.id != 'type':
                             bad_sites.append((fn_node.name, node.lineno, 'AttributeError', f'{ast.unparse(sub)} in the message: instances have no __name__'))
     rep.census['raise_statements'] = n
+    if HANDLER and all(st == PROVED for st in HANDLER.values()):
+        # C17.fallback.internal.*: whatever the translation raises is caught (fallback on) or leaves as NotImplementedError (fallback off)
+        rep.proved('C17.raise.stmt', 'frames', f'{n} raise statements; {len(bad_sites)} raise other classes or can fail while building the message, all converted by the handler of get_exec_params (C17.fallback.internal.*)',
+                   function=f'{RENDER}', clause='raise census: every exception of the translation is NotImplementedError / SQLAlchemyError or is converted by the handler')
+        return
     seen = set()
     for fname, line, cls, text in bad_sites:
         oid = f'C17.raise.stmt.{fname}.{cls}'
@@ -202,11 +222,18 @@ def site_obligations(rep):
         tm = SymDictU('types_map', None, None, prov='param')
         selfo.fields['types_map'] = tm
 
+        def known(ex_):
+            if 'known' not in ex_.path_state:
+                ex_.path_state['known'] = ex_.choose(2, 'type name known', ['yes', 'no']) == 0
+            return ex_.path_state['known']
+
         def getitem(ex_, d, a, k):
-            if ex_.choose(2, 'type name known', ['yes', 'no']) == 1:
+            if not known(ex_):
                 raise pysym.SymRaise(KeyError, (a[0],))
             return SymObj(None, 'sa_type', prov='param')
         ex.method_stubs['__getitem__'] = getitem
+        ex.method_stubs['__contains__'] = lambda ex_, d, a, k: known(ex_)
+        ex.method_stubs['get'] = lambda ex_, d, a, k: (SymObj(None, 'sa_type', prov='param') if known(ex_) else (a[1] if len(a) > 1 else None))
         ex.stubs[('re', 'match')] = lambda ex_, a, k, node=None: (None if ex_.choose(2, f're.match({a[0]!r})', ['no', 'yes']) == 0 else SymObj(None, 'match', prov='fresh'))
         from vlib.pysym import models
         orig = models.symval_method
